@@ -67,6 +67,8 @@ func runC01(w *World, r *Report) {
 	c01Prune(w, r)
 	c01Purge(w, r, ef)
 	c01HistoryOrder(w, r, "C01/HISTORY-ORDER")
+	r.Rule("C01/REPORT-LAST", "a worker that reports its result over a channel performs no ledger or cluster write after the report", 4)
+	c01ReportLast(w, r, "C01/REPORT-LAST")
 }
 
 // ---- REV ---------------------------------------------------------------------------------------
